@@ -296,6 +296,78 @@ Proof.
     cbv zeta in *. destruct Hf as [E _]. unfold reverse_id in He. rewrite E, b64_roundtrip in He. injection He as <-. reflexivity.
 Qed.
 
+(* ---- exactly the strings of the minted form with a correct MAC are accepted ------------------------ *)
+Lemma cookie_decode_complete : forall name ks ts v m d,
+  nopipe ts -> nopipe v -> m = hmac O (hk ks) (mac_msg name ts v) -> parse_int_ok ts = true ->
+  payload ks v = Some d -> (List.length (b64enc (join3 ts v m)) <= max_length)%nat ->
+  cookie_decode O name ks (b64enc (join3 ts v m)) = Ok d.
+Proof.
+  intros name ks ts v m d N1 N2 -> T P L. unfold cookie_decode.
+  apply Nat.ltb_ge in L. rewrite L, b64_roundtrip, (split3_join _ _ _ N1 N2), beqb_refl. cbn [negb].
+  rewrite T. cbn [negb]. unfold payload in P.
+  destruct (b64dec v) as [c|]; [|discriminate]. destruct (decrypt O (bk ks) c) as [p|]; [|discriminate].
+  rewrite P. reflexivity.
+Qed.
+
+Lemma id_string_length : forall r ts v m, List.length (id_string r ts v m) = List.length (b64enc (join3 ts v m)).
+Proof.
+  intros [] ts v m; unfold id_string; cbn [triple_bytes]; [reflexivity|].
+  apply b64enc_length_dep. apply rev_length.
+Qed.
+
+Theorem decode_complete : forall r ks ts v m d,
+  nopipe ts -> nopipe v -> m = hmac O (hk ks) (mac_msg (role_name r) ts v) -> parse_int_ok ts = true ->
+  payload ks v = Some d -> (List.length (id_string r ts v m) <= max_length)%nat ->
+  decode O r ks (id_string r ts v m) = Ok d.
+Proof.
+  intros r ks ts v m d N1 N2 M T P L. rewrite id_string_length in L.
+  pose proof (cookie_decode_complete (role_name r) ks ts v m d N1 N2 M T P L) as C.
+  destruct r; unfold id_string; cbn [triple_bytes decode].
+  - unfold decode_private, decode_private_lax. rewrite is_canonical_b64enc. exact C.
+  - exact (decode_public_of_rev _ _ _ C).
+Qed.
+
+Theorem decode_length : forall r ks s d, decode O r ks s = Ok d -> (List.length s <= max_length)%nat.
+Proof.
+  intros r ks s d H. rewrite decode_is_lax in H. destruct (is_canonical s) eqn:C; [|discriminate].
+  destruct r; cbn [decode_lax] in H.
+  - destruct (cookie_decode_sound _ _ _ _ H) as (ts & v & m & c & p & L & _). apply Nat.ltb_ge. exact L.
+  - unfold decode_public_lax, reverse_id in H. destruct (b64dec s) as [b|] eqn:B; [|discriminate].
+    destruct (cookie_decode_sound _ _ _ _ H) as (ts & v & m & c & p & L & _). apply Nat.ltb_ge in L.
+    rewrite (canonical_dec_enc _ _ C B). rewrite (b64enc_length_dep b (rev b)); [exact L | symmetry; apply rev_length].
+Qed.
+
+(* key sets with the same hash key: the other block key is applied to the value part, nothing else is checked *)
+Theorem shared_hash_key : forall r ks1 ks2 s d1, hk ks1 = hk ks2 -> decode O r ks1 s = Ok d1 ->
+  exists ts v m, s = id_string r ts v m /\ forall d2, payload ks2 v = Some d2 -> decode O r ks2 s = Ok d2.
+Proof.
+  intros r ks1 ks2 s d1 HK H. pose proof (decode_length _ _ _ _ H) as L.
+  destruct (decode_sound _ _ _ _ H) as (ts & v & m & -> & N1 & N2 & M & T & _).
+  exists ts, v, m. split; [reflexivity|]. intros d2 P. rewrite HK in M.
+  exact (decode_complete r ks2 ts v m d2 N1 N2 M T P L).
+Qed.
+
+(* the value whose serialization is empty does not survive a block key *)
+Theorem empty_plaintext_lost : forall r ks k ts iv d s,
+  bk ks = Some k -> ser O d = Some [] -> List.length iv = iv_size -> ctr O k iv [] = [] -> parse_int_ok ts = true ->
+  encode O r ks ts iv d = Ok s -> decode O r ks s = Err EDecrypt.
+Proof.
+  intros r ks k ts iv d s BK S LI CE T E.
+  assert (X : forall name s0, cookie_encode O name ks ts iv d = Ok s0 ->
+              exists x, s0 = b64enc x /\ cookie_decode O name ks (b64enc x) = Err EDecrypt).
+  { intros name s0 E0. destruct (cookie_encode_form _ _ _ _ _ _ E0) as (p & P & F). rewrite S in P. injection P as <-.
+    cbv zeta in F. destruct F as [-> L]. eexists. split; [reflexivity|].
+    unfold cookie_decode. rewrite L, b64_roundtrip.
+    rewrite split3_join by (try exact (parse_int_nopipe _ T); apply b64enc_no_pipe).
+    rewrite beqb_refl. cbn [negb]. rewrite T. cbn [negb]. rewrite b64_roundtrip, BK.
+    rewrite (decrypt_encrypt_empty k iv LI CE). reflexivity. }
+  destruct r; cbn [encode decode] in *.
+  - destruct (X _ _ E) as (x & -> & D). unfold decode_private, decode_private_lax. rewrite is_canonical_b64enc. exact D.
+  - unfold encode_public in E. destruct (cookie_encode O (role_name Public) ks ts iv d) as [s0|] eqn:E0; [|discriminate].
+    destruct (X _ _ E0) as (x & -> & D). unfold reverse_id in E. rewrite b64_roundtrip in E. injection E as <-.
+    unfold decode_public, decode_public_lax, reverse_id. rewrite is_canonical_b64enc, b64_roundtrip, rev_involutive. exact D.
+Qed.
+
 (* ---- modification ------------------------------------------------------------------------------------- *)
 Theorem modification : forall r ks s s' d d',
   decode O r ks s = Ok d -> decode O r ks s' = Ok d' -> s' <> s ->
@@ -393,3 +465,273 @@ Proof.
 Qed.
 
 End Codec.
+
+(* ---- cache keys -------------------------------------------------------------------------------------- *)
+Lemma nopipe_rev : forall l, nopipe l -> nopipe (rev l).
+Proof. intros l H I. apply H. apply in_rev. exact I. Qed.
+
+Theorem cache_key_injective : forall id1 n1 id2 n2, nopipe n1 -> nopipe n2 ->
+  cache_key id1 n1 = cache_key id2 n2 -> id1 = id2 /\ n1 = n2.
+Proof.
+  intros id1 n1 id2 n2 H1 H2 E. unfold cache_key in E.
+  assert (R : rev n1 ++ pipe :: rev id1 = rev n2 ++ pipe :: rev id2).
+  { assert (X : forall (a b : bytes), rev (a ++ pipe :: b) = rev b ++ pipe :: rev a).
+    { intros a b. rewrite rev_app_distr. cbn [rev]. rewrite <- app_assoc. reflexivity. }
+    rewrite <- !X, E. reflexivity. }
+  pose proof (split1_app (rev n1) (rev id1) (nopipe_rev _ H1)) as S. rewrite R in S.
+  rewrite (split1_app (rev n2) (rev id2) (nopipe_rev _ H2)) in S. injection S as A B.
+  split; apply rev_inj; congruence.
+Qed.
+
+Corollary cache_key_role_injective : forall id1 r1 id2 r2,
+  cache_key id1 (role_name r1) = cache_key id2 (role_name r2) -> id1 = id2 /\ r1 = r2.
+Proof.
+  intros id1 r1 id2 r2 E.
+  destruct (cache_key_injective _ _ _ _ (role_name_nopipe r1) (role_name_nopipe r2) E) as [A B].
+  split; [exact A | exact (role_name_inj _ _ B)].
+Qed.
+
+Section Hub.
+Context {key bkey data : Type}.
+Context (O : oracles key bkey data).
+Context (ks : keyset key bkey).
+Notation hub := (hub data).
+Notation lru := (lru data).
+
+(* ---- lookups compare the whole string ---------------------------------------------------------------- *)
+Theorem hub_exact_match : forall r h id h' sid,
+  hub_lookup O ks r h id = (h', Some sid) ->
+  exists ids, session_find sid (sessions h') = Some ids /\ id = stored_id r ids.
+Proof.
+  intros r h id h' sid H. unfold hub_lookup in H.
+  destruct (hub_decode O ks r h id) as [h1 [d|]]; [|discriminate].
+  destruct (session_find (sid_of O d) (sessions h1)) as [ids|] eqn:F; [|discriminate].
+  destruct (beqb (stored_id r ids) id) eqn:B; [|discriminate].
+  injection H as <- <-. exists ids. apply beqb_eq in B. auto.
+Qed.
+
+(* ---- the decode caches hold nothing but results of decode ----------------------------------------------- *)
+Definition entry_ok (e : bytes * data) : Prop :=
+  exists r id, fst e = cache_key id (role_name r) /\ decode O r ks id = Ok (snd e).
+Definition lru_ok (c : lru) : Prop := Forall entry_ok c.
+Definition cache_inv (h : hub) : Prop := Forall lru_ok (caches h).
+
+Lemma lru_del_ok : forall k c, lru_ok c -> lru_ok (lru_del k c).
+Proof.
+  intros k c H. unfold lru_ok, lru_del in *. rewrite Forall_forall in *. intros e I.
+  apply filter_In in I. apply H. exact (proj1 I).
+Qed.
+
+Lemma lru_find_in : forall k (c : lru) v, lru_find k c = Some v -> exists k', k' = k /\ In (k', v) c.
+Proof.
+  induction c as [|[k' v'] c IH]; intros v H; cbn in H; [discriminate|].
+  destruct (beqb k k') eqn:B.
+  - injection H as <-. apply beqb_eq in B. exists k'. split; [auto | left; reflexivity].
+  - destruct (IH _ H) as (k2 & E & I). exists k2. split; [exact E | right; exact I].
+Qed.
+
+Lemma lru_find_ok : forall k c v, lru_ok c -> lru_find k c = Some v -> entry_ok (k, v).
+Proof.
+  intros k c v H F. destruct (lru_find_in _ _ _ F) as (k' & -> & I).
+  unfold lru_ok in H. rewrite Forall_forall in H. exact (H _ I).
+Qed.
+
+Lemma lru_get_ok : forall k c, lru_ok c -> lru_ok (snd (lru_get k c)).
+Proof.
+  intros k c H. unfold lru_get. destruct (lru_find k c) as [v|] eqn:F; cbn [snd]; [|exact H].
+  constructor; [exact (lru_find_ok _ _ _ H F) | exact (lru_del_ok _ _ H)].
+Qed.
+
+Lemma removelast_ok : forall c, lru_ok c -> lru_ok (removelast c).
+Proof.
+  intros c H. unfold lru_ok in *. rewrite Forall_forall in *. intros e I.
+  apply H. clear H. induction c as [|x c IH]; [destruct I|]. cbn in I. destruct c as [|y c]; [destruct I|].
+  destruct I as [I|I]; [left; exact I | right; exact (IH I)].
+Qed.
+
+Lemma lru_set_ok : forall size k v c, lru_ok c -> entry_ok (k, v) -> lru_ok (lru_set size k v c).
+Proof.
+  intros size k v c H E. unfold lru_set. destruct (lru_find k c).
+  - constructor; [exact E | exact (lru_del_ok _ _ H)].
+  - assert (X : lru_ok ((k, v) :: c)) by (constructor; assumption).
+    destruct ((0 <? size)%nat && (size <? List.length ((k, v) :: c))%nat); [exact (removelast_ok _ X) | exact X].
+Qed.
+
+Lemma upd_nth_Forall : forall (A : Type) (P : A -> Prop) i x (l : list A), Forall P l -> P x -> Forall P (upd_nth i x l).
+Proof.
+  intros A P i x l. revert i. induction l as [|y l IH]; intros i H Hx; destruct i; cbn; try constructor;
+    inversion H as [|? ? Hy Hl]; subst; auto.
+Qed.
+
+Lemma get_cache_ok : forall h i, cache_inv h -> lru_ok (get_cache h i).
+Proof.
+  intros h i H. unfold get_cache, cache_inv in *. revert i. induction (caches h) as [|c l IH]; intro i.
+  - destruct i; constructor.
+  - inversion H; subst. destruct i; cbn; auto.
+Qed.
+
+Lemma with_cache_inv : forall h i c, cache_inv h -> lru_ok c -> cache_inv (with_cache h i c).
+Proof. intros h i c H Hc. unfold cache_inv, with_cache. cbn [caches]. apply upd_nth_Forall; assumption. Qed.
+
+Lemma hub_decode_inv : forall r h id, cache_inv h -> cache_inv (fst (hub_decode O ks r h id)).
+Proof.
+  intros r h id H. unfold hub_decode. destruct id as [|c0 id0]; [exact H|].
+  set (id := c0 :: id0). set (ck := cache_key id (role_name r)). set (i := cache_index h ck).
+  pose proof (lru_get_ok ck _ (get_cache_ok h i H)) as G.
+  destruct (lru_get ck (get_cache h i)) as [[d|] c'] eqn:L; cbn [snd] in G.
+  - cbn [fst]. apply with_cache_inv; assumption.
+  - destruct (decode O r ks id) as [d|e] eqn:D; cbn [fst]; [|exact H].
+    apply with_cache_inv; [exact H|]. apply lru_set_ok; [exact (get_cache_ok h i H)|].
+    exists r, id. split; [reflexivity | exact D].
+Qed.
+
+(* the answer of the cached decoder is the answer of the decoder *)
+Theorem cache_transparent : forall r h id, cache_inv h ->
+  snd (hub_decode O ks r h id) = match decode O r ks id with Ok d => Some d | Err _ => None end.
+Proof.
+  intros r h id H. unfold hub_decode. destruct id as [|c0 id0].
+  - destruct r; reflexivity.
+  - set (id := c0 :: id0). set (ck := cache_key id (role_name r)). set (i := cache_index h ck).
+    unfold lru_get. destruct (lru_find ck (get_cache h i)) as [d|] eqn:F.
+    + cbn [snd]. destruct (lru_find_ok _ _ _ (get_cache_ok h i H) F) as (r' & id' & E & D). cbn [fst snd] in E, D.
+      destruct (cache_key_role_injective _ _ _ _ E) as [<- <-]. rewrite D. reflexivity.
+    + destruct (decode O r ks id); reflexivity.
+Qed.
+
+Lemma hub_set_decoded_inv : forall r h id d, cache_inv h -> decode O r ks id = Ok d -> cache_inv (hub_set_decoded r h id d).
+Proof.
+  intros r h id d H D. unfold hub_set_decoded. destruct id as [|c0 id0]; [exact H|].
+  apply with_cache_inv; [exact H|]. apply lru_set_ok; [apply get_cache_ok; exact H|].
+  exists r, (c0 :: id0). split; [reflexivity | exact D].
+Qed.
+
+Lemma hub_invalidate_inv : forall r h id, cache_inv h -> cache_inv (hub_invalidate r h id).
+Proof.
+  intros r h id H. unfold hub_invalidate. destruct id as [|c0 id0]; [exact H|].
+  apply with_cache_inv; [exact H|]. apply lru_del_ok. apply get_cache_ok. exact H.
+Qed.
+
+(* what a registration needs from the oracles for the value it mints ids for *)
+Definition mint_ok (ts iv : bytes) (d : data) : Prop :=
+  parse_int_ok ts = true /\ forall p, ser O d = Some p -> deser O p = Some d /\ stream_ok O (bk ks) iv p.
+Definition wf_hop (o : hop data) : Prop :=
+  match o with
+  | HRegister d ts1 iv1 ts2 iv2 => mint_ok ts1 iv1 d /\ mint_ok ts2 iv2 d
+  | _ => True
+  end.
+
+Lemma encode_then_decode : forall r ts iv d s, mint_ok ts iv d -> encode O r ks ts iv d = Ok s -> decode O r ks s = Ok d.
+Proof.
+  intros r ts iv d s [T M] E. destruct (encode_form O _ _ _ _ _ _ E) as (p & P & _).
+  destruct (M _ P) as [D S]. exact (decode_encode O _ _ _ _ _ _ _ P D S T E).
+Qed.
+
+Lemma hub_lookup_inv : forall r h id, cache_inv h -> cache_inv (fst (hub_lookup O ks r h id)).
+Proof.
+  intros r h id H. unfold hub_lookup. pose proof (hub_decode_inv r h id H) as G.
+  destruct (hub_decode O ks r h id) as [h1 [d|]]; cbn [fst] in *; [|exact G].
+  destruct (session_find (sid_of O d) (sessions h1)); [|exact G].
+  destruct (beqb _ _); exact G.
+Qed.
+
+Lemma hub_step_inv : forall h o, cache_inv h -> wf_hop o -> cache_inv (fst (hub_step O ks h o)).
+Proof.
+  intros h o H W. destruct o as [d ts1 iv1 ts2 iv2|sid|r id|id]; cbn [hub_step].
+  - destruct W as [W1 W2].
+    destruct (encode_private O ks ts1 iv1 d) as [priv|] eqn:E1; [|exact H].
+    destruct (encode_public O ks ts2 iv2 d) as [pub|] eqn:E2; [|exact H]. cbn [fst].
+    apply hub_set_decoded_inv; [apply hub_set_decoded_inv|].
+    + exact H.
+    + exact (encode_then_decode Private _ _ _ _ W1 E1).
+    + exact (encode_then_decode Public _ _ _ _ W2 E2).
+  - destruct (session_find sid (sessions h)) as [ids|]; [|exact H]. cbn [fst].
+    unfold cache_inv. cbn [caches]. apply hub_invalidate_inv. apply hub_invalidate_inv. exact H.
+  - pose proof (hub_lookup_inv r h id H) as G. destruct (hub_lookup O ks r h id) as [h' o]. exact G.
+  - pose proof (hub_lookup_inv Private h id H) as G. destruct (hub_lookup O ks Private h id) as [h' o]. exact G.
+Qed.
+
+Fixpoint hub_run (h : hub) (ops : list (hop data)) : hub * list (hop data * hout) :=
+  match ops with
+  | [] => (h, [])
+  | o :: r => let '(h1, v) := hub_step O ks h o in
+              let '(h2, tr) := hub_run h1 r in (h2, (o, v) :: tr)
+  end.
+
+Theorem cache_sound : forall ops h, cache_inv h -> Forall wf_hop ops -> cache_inv (fst (hub_run h ops)).
+Proof.
+  induction ops as [|o ops IH]; intros h H W; [exact H|]. cbn [hub_run].
+  inversion W as [|? ? Wo Wr]; subst. pose proof (hub_step_inv h o H Wo) as H1.
+  destruct (hub_step O ks h o) as [h1 v]. cbn [fst] in H1. specialize (IH h1 H1 Wr).
+  destruct (hub_run h1 ops) as [h2 tr]. exact IH.
+Qed.
+
+Lemma cache_inv_init : forall n size, cache_inv (hub_init n size).
+Proof.
+  intros n size. unfold cache_inv, hub_init. cbn [caches]. induction n; cbn; constructor; [constructor | assumption].
+Qed.
+
+(* consequence for lookups: a session is found only through a string that the decoder itself accepts *)
+Corollary hub_lookup_sound : forall r h id h' sid, cache_inv h ->
+  hub_lookup O ks r h id = (h', Some sid) ->
+  exists d ids, decode O r ks id = Ok d /\ sid_of O d = sid /\
+                session_find sid (sessions h') = Some ids /\ id = stored_id r ids.
+Proof.
+  intros r h id h' sid H L. pose proof (cache_transparent r h id H) as T. unfold hub_lookup in L.
+  destruct (hub_decode O ks r h id) as [h1 [d|]]; [|discriminate]. cbn [snd] in T.
+  destruct (session_find (sid_of O d) (sessions h1)) as [ids|] eqn:F; [|discriminate].
+  destruct (beqb (stored_id r ids) id) eqn:B; [|discriminate]. injection L as <- <-.
+  destruct (decode O r ks id) as [d'|]; [|discriminate]. injection T as <-.
+  exists d, ids. apply beqb_eq in B. auto.
+Qed.
+
+(* ---- the session table is what was handed out ------------------------------------------------------------- *)
+(* computed from observations only: the ids of the answers to registrations, minus removals *)
+Fixpoint live_from (l : list (N * (bytes * bytes))) (tr : list (hop data * hout)) : list (N * (bytes * bytes)) :=
+  match tr with
+  | [] => l
+  | (HRegister d _ _ _ _, HIds p q) :: r => live_from ((sid_of O d, (p, q)) :: session_del (sid_of O d) l) r
+  | (HRemove sid, _) :: r => live_from (session_del sid l) r
+  | _ :: r => live_from l r
+  end.
+
+Lemma hub_decode_sessions : forall r h id, sessions (fst (hub_decode O ks r h id)) = sessions h.
+Proof.
+  intros r h id. unfold hub_decode. destruct id; [reflexivity|].
+  destruct (lru_get _ _) as [[d|] c]; [reflexivity|]. destruct (decode O r ks _); reflexivity.
+Qed.
+Lemma hub_lookup_sessions : forall r h id, sessions (fst (hub_lookup O ks r h id)) = sessions h.
+Proof.
+  intros r h id. unfold hub_lookup. pose proof (hub_decode_sessions r h id) as G.
+  destruct (hub_decode O ks r h id) as [h1 [d|]]; cbn [fst] in *; [|exact G].
+  destruct (session_find _ _); [|exact G]. destruct (beqb _ _); exact G.
+Qed.
+Lemma hub_set_decoded_sessions : forall r (h : hub) id (d : data), sessions (hub_set_decoded r h id d) = sessions h.
+Proof. intros r h id d. unfold hub_set_decoded. destruct id; reflexivity. Qed.
+Lemma hub_invalidate_sessions : forall r (h : hub) id, sessions (hub_invalidate r h id) = sessions h.
+Proof. intros r h id. unfold hub_invalidate. destruct id; reflexivity. Qed.
+Lemma session_del_absent : forall sid (l : list (N * (bytes * bytes))), session_find sid l = None -> session_del sid l = l.
+Proof.
+  induction l as [|[s ids] l IH]; intro H; [reflexivity|]. cbn in *.
+  destruct (N.eqb s sid); [discriminate|]. cbn. f_equal. exact (IH H).
+Qed.
+
+Theorem sessions_are_handed_out : forall ops h,
+  sessions (fst (hub_run h ops)) = live_from (sessions h) (snd (hub_run h ops)).
+Proof.
+  induction ops as [|o ops IH]; intro h; [reflexivity|]. cbn [hub_run].
+  destruct (hub_step O ks h o) as [h1 v] eqn:S. specialize (IH h1).
+  destruct (hub_run h1 ops) as [h2 tr]. cbn [fst snd] in *. rewrite IH. clear IH.
+  destruct o as [d ts1 iv1 ts2 iv2|sid|r id|id]; cbn [hub_step] in S.
+  - destruct (encode_private O ks ts1 iv1 d) as [priv|]; [|injection S as <- <-; reflexivity].
+    destruct (encode_public O ks ts2 iv2 d) as [pub|]; injection S as <- <-; [|reflexivity].
+    cbn [live_from]. rewrite !hub_set_decoded_sessions. reflexivity.
+  - cbn [live_from]. destruct (session_find sid (sessions h)) as [ids|] eqn:F; injection S as <- <-.
+    + cbn [sessions]. rewrite !hub_invalidate_sessions. reflexivity.
+    + rewrite (session_del_absent _ _ F). reflexivity.
+  - pose proof (hub_lookup_sessions r h id) as G. destruct (hub_lookup O ks r h id) as [h' o]. injection S as <- <-.
+    cbn [fst] in G. rewrite G. destruct o; reflexivity.
+  - pose proof (hub_lookup_sessions Private h id) as G. destruct (hub_lookup O ks Private h id) as [h' o]. injection S as <- <-.
+    cbn [fst] in G. rewrite G. destruct o; reflexivity.
+Qed.
+
+End Hub.
